@@ -647,6 +647,73 @@ fn check_output_literal(spelling: &str, suffix: &str, acc: &mut Acc) {
     }
 }
 
+// D2: integer literal unchanged in the output, in every context kind: kept untyped, converted to int / uint, converted to
+// half / float / double (one rounding of the written value)
+
+const INT_CONTEXTS: [&str; 6] = ["untyped", "int", "uint", "half", "float", "double"];
+
+fn out_int_values(quick: bool) -> Vec<u64> {
+    let mut v: Vec<u64> = vec![0, 1, 2, 7, 8, 9, 10, 15, 100, 255, 1000, 65504, 65535, 16777217, 1000000007, 123456789012345678, u64::MAX, u64::MAX - 1, u64::MAX - 1024, u64::MAX - 1025];
+    let ks: Vec<u32> = if quick { vec![11, 24, 31, 32, 53, 63] } else { (4..64).collect() };
+    for k in ks {
+        let b = 1u64 << k;
+        v.extend([b - 1, b, b + 1, b + (b >> 1), b + (b >> 1) + 1]);
+    }
+    v.sort();
+    v.dedup();
+    v
+}
+
+fn check_output_int(n: u64, radix: u32, context: &str, acc: &mut Acc) {
+    acc.evals += 1;
+    let lit = match radix {
+        16 => format!("0x{:X}", n),
+        8 => format!("0{:o}", n),
+        _ => format!("{}", n),
+    };
+    let (src, want): (String, Vec<f64>) = match context {
+        "untyped" => (format!("uint f() {{ return (uint)({} >> 40); }}\n", lit), vec![]),
+        "int" if n <= i32::MAX as u64 => (format!("int f() {{ return {}; }}\n", lit), vec![]),
+        "uint" if n <= u32::MAX as u64 => (format!("uint f() {{ return {}u; }}\n", lit), vec![]),
+        "half" if n <= 2048 => (format!("half f() {{ return {}; }}\n", lit), vec![n as f64]),
+        "float" => (format!("float f() {{ return {}; }}\n", lit), vec![n as f32 as f64, n as f64 as f32 as f64]),
+        "double" => (format!("double f() {{ return {}; }}\n", lit), vec![n as f64]),
+        _ => return,
+    };
+    let replay = format!("kind: out-int\n{}\n{}\n{}", n, radix, context);
+    match guard(|| compile1(&src, Cfg::Dx, Mode::NoPipeline)) {
+        Err(p) => acc.violation(Violation { signature: p.signature(), detail: format!("compile of {:?} panicked: {}", src, p.message), replay }),
+        Ok(Err(_)) => acc.count("out_int_rejected"),
+        Ok(Ok(ps)) => {
+            let text = String::from_utf8_lossy(&ps[0].data).to_string();
+            let body = text.split_once("return").map(|x| x.1).unwrap_or("").split(';').next().unwrap_or("").to_string();
+            let toks = literal_tokens(&body).unwrap_or_default();
+            let first = toks.first();
+            let ok = if want.is_empty() {
+                // the first literal of the returned expression is the written one, as an integer of the same value
+                matches!(first, Some(Token::LiteralInt(v) | Token::LiteralIntUnsigned32(v) | Token::LiteralIntUnsigned64(v)) if *v == n)
+            } else {
+                let got = match first {
+                    Some(Token::LiteralFloat(v) | Token::LiteralFloat64(v)) => Some(*v),
+                    Some(Token::LiteralFloat16(v) | Token::LiteralFloat32(v)) => Some(*v as f64),
+                    _ => None,
+                };
+                let narrow = context != "double";
+                toks.len() == 1 && got.map(|g| want.iter().any(|w| if narrow { (*w as f32).to_bits() == (g as f32).to_bits() } else { w.to_bits() == g.to_bits() })).unwrap_or(false)
+            };
+            if ok {
+                acc.outcome(&("out-int", n, context));
+            } else {
+                acc.violation(Violation {
+                    signature: format!("output-int-literal|value-changed|{}", context),
+                    detail: format!("integer literal {} (= {}) used as {} is emitted as `{}`, which re-reads as {:?}", lit, n, context, one_line(body.trim(), 80), toks),
+                    replay,
+                });
+            }
+        }
+    }
+}
+
 // ---------------------------------------------------------------------------------------------
 
 pub fn run(ctx: &Ctx) -> i32 {
@@ -763,6 +830,15 @@ pub fn run(ctx: &Ctx) -> i32 {
         }
     });
     rep.absorb("output_literals", r);
+    let ovals = out_int_values(ctx.quick());
+    let nctx = INT_CONTEXTS.len() as u64;
+    let r = run_par(ctx, ovals.len() as u64 * 3 * nctx, 8, |idx, acc| {
+        let mut d = Vec::new();
+        decode(idx, &[nctx, 3, ovals.len() as u64], &mut d);
+        check_output_int(ovals[d[2] as usize], [10, 16, 8][d[1] as usize], INT_CONTEXTS[d[0] as usize], acc);
+    });
+    rep.cov("output_int_values", Json::Int(ovals.len() as i64));
+    rep.absorb("output_int_literals", r);
 
     rep.assumptions = vec![
         "reference for float values is Rust's str::parse::<f64> (correctly rounded) followed by one `as f32` narrowing for f/h suffixes".into(),
@@ -790,6 +866,19 @@ pub fn replay(ctx: &Ctx, body: &str) -> i32 {
             let sp = rest.trim();
             let cut = sp.trim_end_matches(|c: char| "fhlFHL".contains(c));
             check_float(cut, &sp[cut.len()..], &mut acc);
+        }
+        "kind: out-int" => {
+            let mut it = rest.lines();
+            let n: u64 = it.next().unwrap_or("").trim().parse().unwrap_or(0);
+            let radix: u32 = it.next().unwrap_or("").trim().parse().unwrap_or(10);
+            let c = it.next().unwrap_or("").trim().to_string();
+            match INT_CONTEXTS.iter().find(|x| **x == c) {
+                Some(c) => check_output_int(n, radix, c, &mut acc),
+                None => {
+                    eprintln!("machinery error: unknown context {:?}", c);
+                    return 2;
+                }
+            }
         }
         "kind: out" => {
             let mut it = rest.lines();
